@@ -21,13 +21,37 @@ for s in sites:
     f,fn,k,t=s["file"],s["fn"],s["kind"],s["text"]
     e=None
     m_=fn.split("::")[-1]
+    # ---- fourth audit: remove / insert with any argument, powers ----
+    rn=panicsites.receiver_name(panicsites._all_sources()[f], s["pos"]) if k in ("insert","remove_index") else None
+    mt=panicsites.map_receiver(f, rn) if rn else None
+    if k in ("insert","remove_index") and mt:
+        e=G("map or set operation","the receiver `%s` is declared as %s in this file (re-resolved on every run: `receiver_map`); insert / remove of a hash or tree map or set does not panic (allocation aside)" % (rn, mt),receiver_map=rn)
+    elif k=="insert" and f.endswith("basic_block.rs"):
+        e=G("index 0","`Vec::insert(0, x)` panics only for an index beyond the length; 0 never is",site_is=".insert(0,")
+    elif k=="insert" and f.endswith("declarations.rs"):
+        e=G("map operation","`self.0` of the tuple struct Declarations is a HashMap; HashMap::insert does not panic",guard_in={"file":f,"text":"pub struct Declarations(HashMap<VariableName, Declaration>);"})
+    elif k=="insert" and f.endswith("program_merger.rs"):
+        which="template" if "template" in t else "function"
+        e=G("map operation","the receiver is the `&mut %sInfo` the private getter returns, and %sInfo is a type alias of HashMap<String, ..>; HashMap::insert does not panic" % (which.capitalize(), which.capitalize()),
+            guard_in={"file":"program_structure/src/program_library/%s_data.rs" % which,"text":"pub type %sInfo = HashMap<String, %sData>;" % (which.capitalize(), which.capitalize())})
+    elif k in ("insert","remove_index") and f.endswith("utils/environment.rs") and fn.startswith("VariableBlock"):
+        e=G("map operation","`variables` of VariableBlock is a HashMap (the field of the same name of RawEnvironment is a Vec, which is why the receiver is not resolved by name here); HashMap insert / remove do not panic",guard_in={"file":f,"text":"struct VariableBlock<VC> { variables: HashMap<String, VC>, }"})
+    elif k=="pow" and (f.endswith("degree_meta.rs") or (f.endswith("expression_impl.rs") and "lhr.pow" in t)):
+        e=G("own total function","`pow` of Degree / DegreeRange is the crate's own function (a match over the degree lattice), not an integer power",guard_in={"file":"program_structure/src/intermediate_representation/degree_meta.rs","text":"pub fn pow(&self, other: &Degree) -> Degree {"})
+    elif k=="pow" and f.endswith("expression_impl.rs"):
+        e=D("C16_field_never_panics","modular_arithmetic::pow = BigInt::modpow(exp, field): panics for a negative exponent or a zero modulus; the operands are reduced field elements and the field is one of the three primes (Model.Field.pow mirrors it; panics are compared as output values by the C16 run)")
+    if e is not None:
+        e["text"]=s["text"]; e["shape"]=s["shape"]; M[s["key"]]=e
+        continue
     # ---- third audit: the files anchored since the scan covers the whole crate set ----
     if f.endswith("abstract_syntax_tree/ast.rs"):
         if m_=="get_file_id":
-            e=D("C18_desugar_never_panics","Meta::get_file_id panics on a meta without a file id. Its callers are the desugarer (name generation for anonymous components: site 1801 site_get_file_id of Model.Desugar) and the into_report of AnonymousComponentError / TupleError in parser/src/errors.rs on a meta of the tree (site 1803 site_report_file_id); remove_syntactic_sugar returns DOk under wf_template / meta_known (every meta of a parsed definition carries the file id: parse_file calls fill; evaluated by C18's engine and, third audit, by the stage `chain` of ./check C01 on C01's own inputs). The other files that call a method of this NAME call TemplateData::get_file_id / FunctionData::get_file_id (plain field reads); a call from any further file is reported (`called_only_from`)")
-            e["called_only_from"]={"method":"get_file_id","files":["parser/src/errors.rs","parser/src/syntax_sugar_remover.rs","program_structure/src/program_library/program_merger.rs","program_structure/src/control_flow_graph/parameters.rs","program_analysis/src/analysis_runner.rs"]}
+            e=D("C18_desugar_never_panics","Meta::get_file_id panics on a meta without a file id. Its callers are the desugarer (name generation for anonymous components: site 1801 site_get_file_id of Model.Desugar) and the into_report of AnonymousComponentError / TupleError in parser/src/errors.rs on a meta of the tree (site 1803 site_report_file_id); remove_syntactic_sugar returns DOk under wf_template / meta_known (every meta of a parsed definition carries the file id: parse_file calls fill; evaluated by C18's engine and, third audit, by the stage `chain` of ./check C01 on C01's own inputs). The other files that call a method of this NAME call TemplateData::get_file_id / FunctionData::get_file_id (plain field reads); the number of calls per file is recorded (`call_counts`), so a further call anywhere - in one of these files too - is reported")
+            # fourth audit: by NAME (three types have a method get_file_id; the scanner cannot tell receivers apart), so
+            # the NUMBER of calls per file is recorded: a new `meta.get_file_id()` anywhere changes a count and is reported
+            e["call_counts"]={"method":"get_file_id","counts":panicsites.call_counts("get_file_id")}
         elif fn.startswith("TypeKnowledge"):
-            e=G("not called","type knowledge of the SYNTAX tree (inherited from circom's type checker): a TypeKnowledge is reached only through Meta::get_type_knowledge / get_mut_type_knowledge (the field is private); "+UNC+". The `type_knowledge()` the analysis passes call belongs to the IR meta (intermediate_representation/type_meta.rs), another type",uncalled=["reduces_to","get_type_knowledge","get_mut_type_knowledge"])
+            e=G("not called","type knowledge of the SYNTAX tree (inherited from circom's type checker): a TypeKnowledge is reached only through Meta::get_type_knowledge / get_mut_type_knowledge (the field is private; reduces_to itself is called by is_var / is_component / is_signal / is_tag of the same impl, which is why it is not in the `uncalled` list - the two gateways are, and since the fourth audit `uncalled` looks inside the defining file too); "+UNC+". The `type_knowledge()` the analysis passes call belongs to the IR meta (intermediate_representation/type_meta.rs), another type",uncalled=["get_type_knowledge","get_mut_type_knowledge"])
         else:
             e=G("not called","memory knowledge of the SYNTAX tree (inherited from circom's code generator): a MemoryKnowledge is reached only through Meta::get_memory_knowledge / get_mut_memory_knowledge (the field is private); "+UNC,uncalled=[m_,"get_memory_knowledge","get_mut_memory_knowledge"])
     elif f.endswith("program_library/function_data.rs") or f.endswith("program_library/template_data.rs"):
@@ -40,7 +64,7 @@ for s in sites:
             e=G("not called","assert + unwrap accessor inherited from circom; the analysis reads the definition maps through get_templates / get_functions; "+UNC,uncalled=m_)
     elif f.endswith("utils/constants.rs"):
         if k=="expect": e=D("C11_primes_are_documented","parse_bytes(.., 10) of one of three string literals; Gen.Primes is regenerated from these literals as decimal numbers on every run (the generator fails on anything but decimal digits) and C11_primes_are_documented pins their values, so the parse is Some"); e["guard_text"]="let prime = match self {"
-        else: e=G("full-range slice","`[..]` cannot be out of range",guard_text="[..]")
+        else: e=G("full-range slice","`[..]` cannot be out of range",site_is="[..]")
     elif k=="add" and f.endswith("syntax_sugar_remover.rs"):
         e=G("string concatenation","`String + &str`: concatenation, not integer arithmetic (allocation only)",guard_text='"anon_var_".to_string()')
     elif k=="add" and f.endswith("definition_complexity.rs"):
@@ -53,7 +77,7 @@ for s in sites:
              "complement_256":"from_radix_le fails only on an empty digit vector or a digit >= radix; the vector holds exactly 256 digits 0/1 (mirrored by Model.Field.compl)",
              "shift_l":"division by the constant 2 / BigInt subtraction","shift_r":"divisor is 2 or a power of two / BigInt subtraction",
              "val":"division by the constant 2 / BigInt subtraction","not":"remainder by the constant 2","bool_or":"remainder by the constant 2; BigInt addition is arbitrary precision",
-             "add":"BigInt addition is arbitrary precision","mul":"BigInt multiplication is arbitrary precision","bool_and":"BigInt multiplication is arbitrary precision"}.get(fn,"mirrored by Model.Field")
+             "pow":"BigInt::modpow panics for a negative exponent or a zero modulus: the exponent is a reduced field element, the modulus the prime","add":"BigInt addition is arbitrary precision","mul":"BigInt multiplication is arbitrary precision","bool_and":"BigInt multiplication is arbitrary precision"}.get(fn,"mirrored by Model.Field")
         e=D("C16_field_never_panics",why+"; Model.Field mirrors the function and the C16 differential run compares panics as output values")
         if fn=="idiv": e["guard_text"]="if right == zero {"
         if fn=="modulus": e["guard_in"]={"file":f,"text":"if right == zero { Err(ArithmeticError::DivisionByZero) } else { Ok(modulus(&left, &right)) }"}
@@ -63,7 +87,7 @@ for s in sites:
         if fn=="DECNUMBER": e=D("C01_decnumber_action_total","the token matches [0-9]+, so parse_bytes(.., 10) is Some")
         elif fn=="HEXNUMBER": e=D("C01_hexnumber_action_total","the token matches 0x[0-9A-Fa-f]+ (fix 4e93f91): the slice [2..] is in range and non-empty, parse_bytes(.., 16) is Some")
         elif fn=="STRING": e=D("C01_string_action_total","the token matches \"[^\"]*\": at least two bytes, both quotes are ASCII, so 1..len-1 is a valid char-boundary range")
-    elif f=="parser/src/lib.rs": e=G("full-range slice","`[..]` cannot be out of range",guard_text="main_components[..]")
+    elif f=="parser/src/lib.rs": e=G("full-range slice","`[..]` cannot be out of range",site_is="[..]")
     elif f.endswith("parser_logic.rs"): e=G("emptiness check","tokens.len() - 1 is evaluated only in the else branch of `if tokens.is_empty()`",guard_text="if tokens.is_empty() {")
     elif f.endswith("syntax_sugar_remover.rs"):
         W="remove_syntactic_sugar as a whole returns DOk on parser output (Model.Desugar has this as a DPanic site). Hypotheses wf_template / meta_known: every meta belongs to a file of the library (parse_file sets the file id), log strings are at most 230 bytes (C01_split_string_never_panics: chunk bound of build_log_call), named inputs come one per argument and bodies are blocks (grammar)"
@@ -77,8 +101,10 @@ for s in sites:
         elif fn.endswith("take_template"): e=G("caching succeeded","`?` returned on a failed cache_template, which otherwise leaves the entry in the map",guard_text="self.cache_template(name)?;")
         elif fn.endswith("take_function"): e=G("caching succeeded","`?` returned on a failed cache_function, which otherwise leaves the entry in the map",guard_text="self.cache_function(name)?;")
         else: e=G("not called","AnalysisContext::underlying_str is implemented here but no non-test code of the workspace calls it",uncalled="underlying_str")
+    elif f.endswith("signal_assignments.rs"):
+        e=G("prefix length","added by the repair of the partial-access defect (/repo 4f017e8): both slices are `[..n]` with n = min(used.len(), access.len()), computed on the line before, so n is within both vectors",guard_text="let n = used.len().min(access.len());")
     elif f.endswith("bn254_specific_circuit.rs") or f.endswith("unused_output_signal.rs"):
-        e=G("full-range slice","`[..]` cannot be out of range",guard_text="[..]")
+        e=G("full-range slice","`[..]` cannot be out of range",site_is="[..]")
     elif f.endswith("definition_complexity.rs"):
         e=D("C01_complexity_does_not_underflow","`2 + edges - nodes` is evaluated left to right on usize; for every lifted graph nodes <= 2 + sum of the successor-set sizes, because every block but the entry is reachable (C12) and hence the target of an edge. The theorem is about the graph as lifted; into_ssa leaves blocks and edge sets untouched (observed by the C12 correspondence, which dumps the graph after into_ssa)")
     elif f.endswith("nonstrict_binary_conversion.rs"):
@@ -127,9 +153,9 @@ for s in sites:
     elif f.endswith("declarations.rs"):
         e=D("C10_renaming_injective_on_declarations","after ensure_unique_variables two declarations never share a (name, suffix), so the insert finds no previous entry; a duplicate parameter is answered by an error before lifting (C10_duplicate_parameters_reported)")
     elif f.endswith("degree_meta.rs"):
-        e=G("emptiness check","the only caller, iter_opt, calls iter_inf under `!ranges.is_empty()`",guard_in={"file":f,"text":"Some(ranges) if !ranges.is_empty() => Some(Self::iter_inf(ranges)),"},uncalled="iter_inf")
+        e=G("emptiness check","the only caller, iter_opt, calls iter_inf under `!ranges.is_empty()`",guard_in={"file":f,"text":"Some(ranges) if !ranges.is_empty() => Some(Self::iter_inf(ranges)),"},call_counts={"method":"iter_inf","counts":panicsites.call_counts("iter_inf")})
     elif f.endswith("expression_impl.rs"):
-        if k=="rem": e=G("non-zero prime","env.prime() is one of the three shipped primes (Gen.Primes), BigInt `%` panics only for zero",guard_text="env.prime()")
+        if k=="rem": e=D("C11_primes_are_documented","the divisor is env.prime(), one of the three shipped primes (Gen.Primes, pinned by the theorem), BigInt `%` panics only for zero"); e["site_is"]="% env.prime()"
         else: e=G("size check","`next()` on a set of size 1",guard_text="Some(values) if values.len() == 1 => {")
     elif f.endswith("intermediate_representation/lifting.rs"):
         if k=="panic": e=D("C18_desugar_output_sugar_free C18_functions_with_sugar_rejected","the catch-all arms are reached only by tuples, anonymous components, multi-assignments and parallel operators' sugar; every body handed on by remove_syntactic_sugar is sugar free (templates) or was rejected (functions)")
@@ -164,6 +190,8 @@ for s in sites:
     elif f.endswith("sarif_conversion.rs"):
         if k=="assert": e=D("C04_label_start_le_end","every label range is the range of a node meta or a parser range (C04_labels_from_nodes), so start <= end is inherited from the ranges the parser builds with Meta::new(s, e) from LALRPOP's @L/@R positions (that hypothesis is about the generated parser: observed by the C04 engine on every label); C04_labels_wellformed_through_desugaring carries it through the desugarer")
         else: e=G("from a String","the PathBuf is built from a `String` two lines above, so to_str() is Some",guard_text=".replace('\"', \"\") .into();")
+    elif f.endswith("writers.rs") and k=="expect" and "StdoutWriter::write_reports" in fn:
+        e=D("C04_labels_wellformed_through_desugaring_lifting_and_ssa C04_label_file_is_a_node_file C04_unclosed_comment_label_valid","fourth audit (was booked `outside_model`): term::emit fails when stdout cannot be written (run-time environment, DESIGN 5.3) AND when a label names an unknown file or a range that is out of range / not on a character boundary. The second cause is C04's subject: every label carries the range and the file of a node of the parsed source or the parser's own error range (start <= end; positions are LALRPOP byte offsets of tokens, hence character boundaries of a file of the library); that the ranges lie inside the file is observed by C04's engine on every label of every run, not proved")
     elif f.endswith("writers.rs"):
         e=X("fails only when stdout cannot be written (closed pipe, full disk): run-time environment, DESIGN §5.3; termcolor/codespan internals are observed only")
     assert e is not None, s["key"]
